@@ -2,6 +2,7 @@ from plans.common import *
 
 H = "harness/c11_vector.cpp"
 RC = cmd("segment-arith", "harness/c11_seq_rc.cpp", "plain", 1, link_tbb=False, ldflags=["-lrapidcheck"], env={"RC_PARAMS": "seed={seed} max_success=20000 max_size=100"})
+RCI = cmd("iterator-model", "harness/c11_iter_rc.cpp", "plain", 2, link_tbb=True, ldflags=["-lrapidcheck"], env={"RC_PARAMS": "seed={seed} max_success=20000 max_size=100"})
 PLAN = dict(
     level="exploration",
     rule="case = generated growth program on one concurrent_vector (2-4 threads x 1-6 ops from push_back/emplace_back/grow_by/grow_by(value)/"
@@ -9,24 +10,24 @@ PLAN = dict(
          "k-th allocation failure) x generated schedule; oracle: returned ranges pairwise disjoint and tiling [0,size()), every element constructed "
          "exactly once with the requested value, addresses stable, grow_to_at_least(n) returns with storage for all of [0,n) and its own / earlier "
          "returned elements constructed, destructor balance, no crash after a fault; plus single-call cases of 2^31..6*2^30 one-byte elements and a "
-         "rapidcheck property over the index<->segment arithmetic; non-trivial = two growth calls overlapped, or a fault fired, or size >= 2^31; "
+         "rapidcheck property over the index<->segment arithmetic, and a rapidcheck model test of the iterators (taken from begin()+k and from the return values of "
+         "push_back / grow_by, walked by ++ -- += -= across segment boundaries: *it, &*it and it - begin() follow the index); non-trivial = two growth calls overlapped, or a fault fired, or size >= 2^31; "
          "distinct = hash of program text + schedule descriptor",
     assumptions=SC_TSO + ["elements under construction by a still-running call of another thread are not required to be constructed when grow_to_at_least returns (user guide); storage for them is",
                           "after an injected fault only memory safety, size sanity and destructor balance are checked (content of the failed range is unspecified)",
-                          "known finding C11-fault-orphans-segments (hang of concurrent growth calls after a fault) is excluded and counted"],
+                          "after an injected fault every other growth call must still return or throw (nothing excluded: the former known finding C11-fault-orphans-segments is repaired in /repo)"],
     floor=dict(quick=100, thorough=1000),
     tiers=dict(
         quick=[det("rel", H, "cs-rel", 14, 60, 4, tso=True, time_cap=25),
                det("dbg", H, "cs-dbg", 14, 40, 4, tso=True, time_cap=25, args=["--nofault"]),
                det("big31", H, "cs-rel", 1, 1, 1, time_cap=100, args=["--big", "--big31"]),
                det("big32", H, "cs-rel", 1, 1, 1, time_cap=100, args=["--big", "--big32"]),
-               det("witness-fault-hang", H, "cs-rel", 1, 10, 4, time_cap=30, args=["--witness"]),
-               RC],
+               RC, RCI],
         thorough=[det("rel", H, "cs-rel", 16, 3000, 5, tso=True, time_cap=300),
                   det("dbg", H, "cs-dbg", 16, 1000, 5, tso=True, time_cap=200, args=["--nofault"]),
                   det("big", H, "cs-rel", 8, 2, 1, time_cap=200, args=["--big"]),
-                  det("witness-fault-hang", H, "cs-rel", 1, 10, 4, time_cap=30, args=["--witness"]),
-                  dict(RC, env={"RC_PARAMS": "seed={seed} max_success=400000 max_size=100"})],
+                     dict(RC, env={"RC_PARAMS": "seed={seed} max_success=400000 max_size=100"}),
+                  dict(RCI, procs=8, env={"RC_PARAMS": "seed={seed} max_success=300000 max_size=100"})],
     ),
 )
 TEXT = dict(
